@@ -610,6 +610,7 @@ def _check(run):
                              type(err).__name__, str(err)[:200], route, run.where()))
         return
     base = Obs(ctx, base_list, "TreeList.get")
+    run.base = base
     n = len(base.trees)
     run.in_namespace("TreeList.get", base, base_list.taxon_namespace)
     base_ns_labels = [t.label for t in base_list.taxon_namespace]
@@ -689,6 +690,16 @@ def _check(run):
                                                            **dict(src.kw(kinds["list_off"]), **dict(run.nskw(), **opts))))
         run.same_trees(route, Obs(ctx, tl, route), base.trees[starts[i]:starts[i] + sz],
                        None if ident is None else ident[starts[i]:starts[i] + sz])
+        if sz == 0:
+            # an empty collection (NeXML <trees/> element) holds no tree to select: the single-tree route must not
+            # answer with a tree of another collection (it raises ValueError; its docstring also allows None)
+            ctx.cls("empty_collection")
+            res, e = attempt(lambda: dendropy.Tree.get(schema=schema, collection_offset=i,
+                                                       **dict(src.kw(kinds["tree"]), **dict(run.nskw(), **opts))))
+            ctx.check(res is None and (e is None or isinstance(e, (ValueError, IndexError))),
+                      "empty_collection_delivers_no_tree", "C13.empty_collection:Tree.get",
+                      lambda: "Tree.get(collection_offset=%d) on the empty collection %d of %r gave %r / %r; %s" % (
+                          i, i, sizes, res, e, run.where()))
         for j in range(sz):
             route = "Tree.get(collection_offset,tree_offset)"
             t = run.call(route, lambda: dendropy.Tree.get(schema=schema, collection_offset=i, tree_offset=j,
@@ -706,7 +717,7 @@ def _check(run):
             run.same_trees(route, Obs(ctx, tl, route), base.trees[starts[i] + j:starts[i] + sz],
                            None if ident is None else ident[starts[i] + j:starts[i] + sz])
             ctx.cls("offsets_checked")
-    if n:
+    if n and sizes[0]:
         route = "Tree.get()"
         t = run.call(route, lambda: dendropy.Tree.get(schema=schema, **dict(src.kw(kinds["tree"]), **dict(run.nskw(), **opts))))
         run.same_trees(route, Obs(ctx, [t], route), [base.trees[0]], None if ident is None else [ident[0]])
@@ -715,10 +726,12 @@ def _check(run):
         tl = run.call(route, lambda: dendropy.TreeList.get(schema=schema, tree_offset=j,
                                                            **dict(src.kw(kinds["list_off"]), **dict(run.nskw(), **opts))))
         run.same_trees(route, Obs(ctx, tl, route), base.trees[j:sizes[0]], None if ident is None else ident[j:sizes[0]])
+    if n:
         route = "TreeList.get(negative offsets)"
         tl = run.call(route, lambda: dendropy.TreeList.get(schema=schema, collection_offset=-1, tree_offset=-1,
                                                            **dict(src.kw(kinds["list_off"]), **dict(run.nskw(), **opts))))
-        run.same_trees(route, Obs(ctx, tl, route), base.trees[-1:], None if ident is None else ident[-1:])
+        last = slice(starts[-1] + max(sizes[-1] - 1, 0), starts[-1] + sizes[-1])     # last tree of the LAST collection
+        run.same_trees(route, Obs(ctx, tl, route), base.trees[last], None if ident is None else ident[last])
         for what, kw in (("collection", {"collection_offset": len(sizes)}),
                          ("tree", {"collection_offset": len(sizes) - 1, "tree_offset": sizes[-1]})):
             res, e = attempt(lambda: dendropy.TreeList.get(data=text, schema=schema, **dict(kw, **dict(run.nskw(), **opts))))
@@ -752,7 +765,8 @@ def _check(run):
         ctx.check(len(tl.taxon_namespace) == ns_len, "second_read_adds_no_taxa", "C13.namespace_growth:TreeList.read(second)",
                   "namespace grew from %d to %d taxa on re-reading the same document; %s" % (ns_len, len(tl.taxon_namespace), run.where()))
     if n:
-        i = plan["pick"] % len(sizes)
+        nonempty = [k for k, sz in enumerate(sizes) if sz]
+        i = nonempty[plan["pick"] % len(nonempty)]
         j = (plan["pick"] // 7) % sizes[i]
         before = len(tl)
         n3 = run.call("TreeList.read(offsets)", lambda: tl.read(schema=schema, collection_offset=i, tree_offset=j,
@@ -879,6 +893,16 @@ def check_tree_array(run, n, sizes):
         want, got = split_rows(ref), split_rows(ta)
         ctx.check(got == want, "tree_array_read_equals_adding_the_listed_trees", "C13.differs:%s" % route,
                   lambda: "%s; %s" % (first_diff(got, want), run.where()))
+        # independent of add_tree: with use_tree_weights (the default) the array holds the weights the list route
+        # delivers, a tree without weight counting 1.0
+        want_w = [1.0 if o["head"][2] is None else float(o["head"][2]) for o in run.base.trees[offset:]]
+        total = ta.split_distribution.sum_of_tree_weights
+        ctx.check(list(ta._tree_weights) == want_w and abs(total - sum(want_w)) <= 1e-9 * (1.0 + abs(sum(want_w))),
+                  "tree_array_holds_the_delivered_tree_weights", "C13.weights:%s" % route,
+                  lambda: "%s stored weights %r (sum %r), TreeList.get delivered %r; %s" % (
+                      route, list(ta._tree_weights), total, [o["head"][2] for o in run.base.trees[offset:]], run.where()))
+        if any(w == 0.0 for w in want_w):
+            ctx.cls("treearray:zero_weight_tree")
         if r is not None:
             ctx.check(r == n - offset, "read_returns_number_of_trees", "C13.counts:%s" % route,
                       "%s returned %r for %d trees; %s" % (route, r, n - offset, run.where()))
